@@ -61,11 +61,19 @@ func (pc *parentController) callHook(
 		return nil, nil
 	}
 
+	// A JSON null in the list decodes to a nil pointer. Such entries are
+	// tolerated, but must not reach the code that builds the desired child maps.
+	children := response.Children[:0]
 	for _, child := range response.Children {
-		if child != nil && child.GetNamespace() == "" {
+		if child == nil {
+			continue
+		}
+		if child.GetNamespace() == "" {
 			child.SetNamespace(parent.GetNamespace())
 		}
+		children = append(children, child)
 	}
+	response.Children = children
 
 	return &response, nil
 }
